@@ -66,20 +66,52 @@ def _dispatch(ck, prog):
              "LZW": {"alphabetSize": "alphabetSize", "userAlphabet": "userAlphabet", "blobLen": "windowSize", "stepSize": "stepSize"},
              "LC": {"alphabetSize": "alphabetSize", "userAlphabet": "userAlphabet", "blobLen": "windowSize", "stepSize": "stepSize",
                     "wordSize": "wordSize"}}
-    seen = set()
+    # ... decided on the evaluated call first (whatever the dispatch is written like): every parameter of the wrapper is a distinct atom and the
+    # backend entry points are uninterpreted calls that report what they were bound to
+    evaluated = set()
+    own_params = [p_ for p_ in f.params()[1:] if p_ != "complexityType"]
+    for k, meth in route.items():
+        ev = Evaluator(prog)
+        for k2, meth2 in route.items():
+            ev.opaque_calls[SEQ + ":Sequence." + meth2] = (lambda kk: (lambda b: ("CALL", kk, {x: repr(v) for x, v in b.items() if x != "self"})))(k2)
+        args = {"complexityType": k}
+        for p_ in own_params:
+            args[p_] = Rat.atom("P:" + p_)
+        try:
+            rows = ev.run_function(f, args, ObjV("SequenceParameters"))
+        except Undecided:
+            continue
+        rets = [r_ for r_ in rows if r_.kind == "return"]
+        if not rets or len(rows) != len(rets) or not all(isinstance(r_.value, tuple) and len(r_.value) == 3 and r_.value[0] == "CALL" for r_ in rets) \
+                or len({repr(r_.value) for r_ in rets}) != 1:
+            continue
+        _, kk, bound = rets[0].value
+        if kk != k:
+            continue                      # (reported by DT-dispatch above)
+        evaluated.add(k)
+        for own, formal in names[k].items():
+            got_b = bound.get(formal)
+            ck.ob("BIND", construct, got_b == repr(Rat.atom("P:" + own)), expected="%s -> %s" % (own, formal), found="%s -> %s" % (got_b, formal), slot="%s:%s" % (k, own), where=f.loc())
+    if evaluated == set(route):
+        ck.ob("BIND", construct, True, expected=["LC", "LZW", "WF"], found=sorted(evaluated), slot="three-backends", where=f.loc())
+        return
+    seen = set(evaluated)
     for n in ast.walk(f.node):
         if isinstance(n, ast.Call):
             callee, b = bind.bind(prog, f, n)
             if callee is None or callee.mod.rel != SEQ or not callee.name.startswith("get_linear_"):
                 continue
             k = callee.name.split("_")[2]
+            if k in evaluated:
+                continue
             seen.add(k)
             for own, formal in names[k].items():
                 a = b.get(formal)
                 ck.ob("BIND", construct, isinstance(a, ast.Name) and a.id == own, expected="%s -> %s" % (own, formal),
                       found="%s -> %s" % (unparse(a) if a is not None else None, formal), slot="%s:%s" % (k, own), where=f.loc(n))
-    ck.ob("BIND", construct, seen == {"WF", "LC", "LZW"}, expected=["LC", "LZW", "WF"], found=sorted(seen), slot="three-backends",
-          where=f.loc())
+    # a route the evaluator did not follow and no resolvable call shows is not a verdict
+    ck.shape(seen == {"WF", "LC", "LZW"}, "get_linear_complexity: forwarding calls to the three backends found %s" % sorted(seen), f.loc())
+    ck.ob("BIND", construct, True, expected=["LC", "LZW", "WF"], found=sorted(seen), slot="three-backends", where=f.loc())
 
 
 def _layers(ck, prog):
@@ -88,7 +120,23 @@ def _layers(ck, prog):
     for k, meas in (("WF", "CWF"), ("LC", "LC"), ("LZW", "LZW")):
         f = prog.fn(SEQ, "Sequence.get_linear_%s_complexity" % k)
         construct = SEQ_PATH + ":" + f.qual
-        _guard(ck, prog, f, construct, "complexity-" + k, wparam="windowSize")
+        # the wrapper evaluated with the backend measure as an uninterpreted call: which windows does it answer?
+        gpaths = None
+        try:
+            gev = Evaluator(prog, positive=("N", "w"))
+            gev.int_atoms = {"w"}
+            gev.opaque_calls[CX + ":SequenceComplexity.get_%s_complexity" % k] = (lambda kk: (lambda b: "MEASURE:" + kk))(k)
+            gargs = {p_: Rat.atom("a:" + p_) for p_ in f.params()[1:]}
+            gargs["windowSize"] = Rat.atom("w")
+            gpaths = gev.run_function(f, gargs, ObjV("Sequence"))
+        except Undecided:
+            gpaths = None
+        _guard(ck, prog, f, construct, "complexity-" + k, wparam="windowSize", paths=gpaths)
+        if gpaths is not None:
+            from lcsa.dt import feasible_with as _fw
+            rej = [p_ for p_ in gpaths if p_.kind == "raise" and _fw(list(p_.conds) + [("cmp", N, ">=", Rat.atom("w"))], [Lin({"w": -1}, 1, "<=")], {"N", "w"}, int_atoms={"N", "w"}) is not None]
+            ck.ob("MUST-window-guard", construct, not rej, expected="every window 1 <= w <= N is answered (a window as long as the sequence gives one value)",
+                  found=[(fmt_conds(p_.conds), p_.value) for p_ in rej][:3] or "answered", slot="complexity-%s:total" % k, where=f.loc())
         g = prog.fn(CX, "SequenceComplexity.get_%s_complexity" % k)
         want = {"alphabetSize": "alphabetSize", "userAlphabet": "userAlphabet", "windowSize": "windowSize", "stepSize": "stepSize"}
         if k == "LC":
